@@ -20,6 +20,8 @@
 -/
 import JsonC.Lemmas.TokenerStep
 import JsonC.Lemmas.TokenerScrub2
+import JsonC.Lemmas.TokenerTable
+import JsonC.Generated.Structure
 
 namespace JsonC.Tokener
 open JsonC
@@ -250,6 +252,14 @@ theorem reachable_wf (lc : Libc) (t : Tok) (h : Reachable lc t) : WF t := by
 theorem stack_in_bounds (lc : Libc) (t : Tok) (h : Reachable lc t) : 1 ≤ t.stack.length ∧ t.stack.length ≤ t.maxDepth := by
   obtain ⟨top, rest, hs, hd, _, _, _⟩ := (reachable_wf lc t h).ex
   rw [hs]; simp; omega
+
+/-- **the state machine in the current source has the transition structure the model was written
+against**: per `case json_tokener_state_…` group the same successor states, saved states and error
+codes (extracted from /repo's json_tokener.c on every run), and the same three error overrides after
+`out:` -/
+theorem tok_structure_as_modelled :
+    Generated.tokCases = expectedTokCases ∧ Generated.tokEpilogueErrs = expectedTokEpilogueErrs := by
+  constructor <;> decide
 
 /-- no surrogate is pending outside the three `\\u` states, for every reachable tokener -/
 theorem reachable_hsInv (lc : Libc) (t : Tok) (h : Reachable lc t) : HsInv t := by
